@@ -34,6 +34,11 @@ Hypothesis P_exhaust : forall s, P s -> orig s = true -> closed s <> [] ->
   (aborting s = true \/ (ready s = [] /\ N s <= taken s)) -> P (set_flags s false false (phase s)).
 Hypothesis P_want : forall s, P s -> P (set_want s).
 Hypothesis P_close_try : forall s, P s -> phase s = Retrieving -> P (abandon (finalize s Finished true true)).
+(* the backend refuses the batch the caller has just registered: the call is aborted from inside _start *)
+Hypothesis P_refuse_first : forall s b s1, P s -> 1 <= n_jobs (c s) -> 1 <= b -> phase s = StartFirst ->
+  dispatch_shape s b false s1 true -> P (finalize s1 Finished true true).
+Hypothesis P_refuse_loop : forall s b s1, P s -> 1 <= n_jobs (c s) -> 1 <= b -> phase s = StartLoop ->
+  dispatch_shape s b false s1 true -> P (finalize s1 Finished true true).
 Hypothesis P_close_drain : forall s r, P s -> phase s = Draining r -> P (abandon (set_out s (jobs s) (jset s) [] false Finished)).
 Hypothesis P_timeout : forall s j, P s -> want s = true -> timeout_target s = Some j -> status_of s j = Pending ->
   P (do_timeout s j).
@@ -118,7 +123,7 @@ Qed.
 
 Lemma P_step_raw s e : P s -> 1 <= n_jobs (c s) -> wf_ev e -> P (fst (step_raw true s e)).
 Proof.
-  intros Hs Hnj Hwf. destruct e as [cf n f|b|t o|t b| | | ]; cbn [step_raw].
+  intros Hs Hnj Hwf. destruct e as [cf n f|b|t o|t b| | | |b]; cbn [step_raw].
   - destruct (running s) eqn:Hr; [exact Hs|].
     destruct (phase s) eqn:Hph; cbn [fst]; try exact Hs; apply P_call; auto.
   - cbn [wf_ev] in Hwf. destruct (phase s) eqn:Hph; try exact Hs.
@@ -140,6 +145,20 @@ Proof.
     destruct (timeout_target s) as [j|] eqn:Ht; [|exact Hs].
     destruct (status_of s j) eqn:Hst; cbn [fst]; try exact Hs.
     apply P_timeout; assumption.
+  - (* the backend refuses the batch *)
+    cbn [wf_ev] in Hwf. destruct (phase s) eqn:Hph; try exact Hs.
+    + pose proof (dispatch_one_batch_shape s b false Hnj Hwf) as Hsh.
+      destruct (dispatch_one_batch s b false) as [s1 r] eqn:Hd. cbn [fst snd] in Hsh.
+      destruct (r && negb (aborting s1)) eqn:Hrf.
+      { apply andb_true_iff in Hrf as [-> _]. cbn [fst]. exact (P_refuse_first s b s1 Hs Hnj Hwf Hph Hsh). }
+      pose proof (P_start_first s b s1 r Hs Hnj Hwf Hph Hsh) as H2. unfold start_first_next in H2.
+      cbn [fst]. destruct (aborting _); exact H2.
+    + pose proof (dispatch_one_batch_shape s b false Hnj Hwf) as Hsh.
+      destruct (dispatch_one_batch s b false) as [s1 r] eqn:Hd. cbn [fst snd] in Hsh.
+      destruct (r && negb (aborting s1)) eqn:Hrf.
+      { apply andb_true_iff in Hrf as [-> _]. cbn [fst]. exact (P_refuse_loop s b s1 Hs Hnj Hwf Hph Hsh). }
+      pose proof (P_start_loop s b s1 r Hs Hnj Hwf Hph Hsh) as H2. unfold start_loop_next in H2.
+      destruct r; [destruct (aborting s1)|]; cbn [fst]; exact H2.
 Qed.
 
 Lemma P_step s e : P s -> 1 <= n_jobs (c s) ->
